@@ -564,7 +564,7 @@ def grid(tier):
                 add("Smoothing1D", nsmooth=ns, dims=d, axis=ax)
         for nh, off in [(1, 0), (3, 1), (3, 0), (4, 1), (4, 3), (5, 2)] if not T else \
                 [(nh, off) for nh in (1, 2, 3, 4, 5) for off in range(nh)]:
-            for method in ((None,) if not T else (None, "direct", "fft")):
+            for method in ((None,) if not T else ((None, "direct", "fft") if len(d) == 1 else (None, "fft", "overlapadd"))):
                 if nh > n or off >= n - 1 + (n == 1):
                     continue
                 add("Convolve1D", dims=d, nh=nh, offset=off, axis=ax, method=method)
